@@ -130,7 +130,7 @@ def audit_coq(prop, theories_sub=None):
         txt = seen.get(n, "")
         axioms = []
         if "Closed under the global context" not in txt:
-            axioms = re.findall(r"^([\w.]+)\s*:", txt, flags=re.M)
+            axioms = [a for a in re.findall(r"^([\w.]+)\s*:", txt, flags=re.M) if a != "Axioms"]
             if not axioms:
                 rep["problems"].append(f"{n}: could not read Print Assumptions output")
                 continue
